@@ -15,6 +15,15 @@ pub const TOK: [&str; 16] =
     [" ", "\t", "-", "//", "TXTPP#", "TXTPP", "#", "include", "after", "run", "temp", "tag", "write", "writex", "x", "\u{e9}"];
 pub const CTOK: [&str; 8] = [" ", "\t", "-", "//", "x", "\u{e9}", "TXTPP#", "// "];
 
+fn std_cmd_or_fail(c: &str, _d: &str, _l: &dyn Fn(&str) -> Option<Vec<u8>>) -> Result<String, String> {
+    let o = std::process::Command::new("/bin/sh").arg("-c").arg(c).stdin(std::process::Stdio::null()).output().map_err(|e| e.to_string())?;
+    if o.status.success() {
+        Ok(String::from_utf8_lossy(&o.stdout).to_string())
+    } else {
+        Err("status".into())
+    }
+}
+
 fn kind_of(t: &DirectiveType) -> Kind {
     match t {
         DirectiveType::Empty => Kind::Empty,
@@ -220,6 +229,80 @@ pub fn run_c15(tier: &str) -> i32 {
         }
         rep.set("set_model_steps", json!(["e2e:0"]));
     });
+    // phase 4: the same grammar inside a file that is processed in two passes (it has a .txtpp dependency):
+    // directive line l1 (<= 3 tokens, a multi-line kind with a prefix) followed by candidate line l2
+    let heads2: Vec<String> = all_lines(&TOK, 3).into_iter().filter(|l| matches!(classify(l), Some(h) if h.kind.multi() && !h.prefix.is_empty())).collect();
+    rep.set("two_pass_sources", json!(heads2.len() * l2s.len()));
+    sharded(&rep, par_threads(), |k, n, rep| {
+        let scratch = Scratch::new();
+        let base = scratch.p("p");
+        for (i, l1) in heads2.iter().enumerate() {
+            if i % n != k {
+                continue;
+            }
+            if rep.over_cap() {
+                rep.note_cap("wall-clock cap in the two-pass end-to-end pass");
+                break;
+            }
+            for l2 in &l2s {
+                let src = format!("top\nTXTPP#include dep.txt\n{l1}\n{l2}\nEND\n");
+                let mut t = Tree::new();
+                tfile(&mut t, "dep.txt.txtpp", "D\n");
+                tfile(&mut t, "s.txt.txtpp", &src);
+                let mt = MTree::from_tree(&t);
+                let bench_cmd = |c: &str, _d: &str, _l: &dyn Fn(&str) -> Option<Vec<u8>>| -> Result<String, String> {
+                    let o = std::process::Command::new("/bin/sh").arg("-c").arg(c).current_dir(&base).env("TXTPP_FILE", "s.txt.txtpp").stdin(std::process::Stdio::null()).output().map_err(|e| e.to_string())?;
+                    if o.status.success() { Ok(String::from_utf8_lossy(&o.stdout).to_string()) } else { Err("status".into()) }
+                };
+                let _ = std::fs::remove_dir_all(&base);
+                std::fs::create_dir_all(&base).unwrap();
+                write_tree(&base, &t);
+                let mut m = Model::new(&mt, true, &bench_cmd);
+                let want = m.eval("s.txt.txtpp");
+                if matches!(&want, Err(e) if e.starts_with("out-of-domain")) {
+                    continue;
+                }
+                let r = crate::ctl::run_canonical(txtpp::Config {
+                    base_dir: base.clone(),
+                    shell_cmd: String::new(),
+                    inputs: vec!["s.txt".into()],
+                    recursive: false,
+                    num_threads: 4,
+                    mode: Mode::Build,
+                    verbosity: txtpp::Verbosity::Quiet,
+                    trailing_newline: true,
+                });
+                rep.tv(1);
+                rep.tr(1);
+                rep.add("two_pass_compared", 1);
+                let got = std::fs::read(base.join("s.txt")).ok();
+                let bad = if !r.clean() {
+                    Some(format!("run ended with {} {:?}", r.verdict.kind(), r.worker_panics))
+                } else {
+                    match (&want, r.verdict.is_ok()) {
+                        (Ok(mf), true) => {
+                            if got.as_ref().map(|g| mf.outs.iter().any(|o| o == g)) == Some(true) {
+                                None
+                            } else {
+                                Some(format!("output {:?}, grammar prescribes {:?}", got.as_ref().map(|x| show(x)), mf.outs.iter().map(|x| show(x)).collect::<Vec<_>>()))
+                            }
+                        }
+                        (Err(_), false) => None,
+                        (Ok(_), false) => Some(format!("build failed ({}) but the lines are well-formed", crate::sched::first_lines(&r.verdict.detail(), 4))),
+                        (Err(e), true) => Some(format!("build succeeded but the grammar prescribes an error: {e}")),
+                    }
+                };
+                if let Some(msg) = bad {
+                    rep.violate(
+                        "two-pass-line-handling",
+                        format!("file with a dependency, then {l1:?} followed by {l2:?}: {msg}"),
+                        json!({"engine": "U-gram", "two_pass": true, "line": l1, "continuation": l2}),
+                    );
+                }
+            }
+        }
+        rep.set("set_model_steps", json!(["e2e2:0"]));
+    });
     finish_steps(&rep);
     // the end-to-end comparison reuses C01's oracle: relabel its replay engine
     if rep.get("pairs_continuing") == 0 || rep.get("lines_that_are_directives") == 0 {
@@ -231,6 +314,28 @@ pub fn run_c15(tier: &str) -> i32 {
 pub fn replay(v: &serde_json::Value) -> bool {
     let rep = Report::new("C15", "quick");
     let line = v["line"].as_str().unwrap_or("");
+    if v["two_pass"].as_bool() == Some(true) {
+        let l2 = v["continuation"].as_str().unwrap_or("");
+        let scratch = Scratch::new();
+        let base = scratch.p("p");
+        let src = format!("top\nTXTPP#include dep.txt\n{line}\n{l2}\nEND\n");
+        let mut t = Tree::new();
+        tfile(&mut t, "dep.txt.txtpp", "D\n");
+        tfile(&mut t, "s.txt.txtpp", &src);
+        std::fs::create_dir_all(&base).unwrap();
+        write_tree(&base, &t);
+        let mt = MTree::from_tree(&t);
+        let mut m = Model::new(&mt, true, &std_cmd_or_fail);
+        let want = m.eval("s.txt.txtpp");
+        let r = crate::ctl::run_canonical(txtpp::Config { base_dir: base.clone(), shell_cmd: String::new(), inputs: vec!["s.txt".into()], recursive: false, num_threads: 4, mode: Mode::Build, verbosity: txtpp::Verbosity::Quiet, trailing_newline: true });
+        let got = std::fs::read(base.join("s.txt")).ok();
+        println!("replay: source {:?}: implementation {} {:?}; model {:?}", src, r.verdict.kind(), got.as_ref().map(|x| show(x)), want.as_ref().map(|m| m.outs.iter().map(|x| show(x)).collect::<Vec<_>>()));
+        return match (&want, r.verdict.is_ok()) {
+            (Ok(mf), true) => got.as_ref().map(|g| mf.outs.iter().any(|o| o == g)) != Some(true),
+            (Err(_), false) => false,
+            _ => true,
+        } || !r.clean();
+    }
     let h = check_line(&rep, line);
     if let (Some(c), Some(h)) = (v["continuation"].as_str(), h) {
         check_pair(&rep, line, &h, c);
